@@ -10,12 +10,33 @@ use std::collections::{BTreeMap, HashMap};
 use std::sync::{Arc, Barrier};
 use std::time::Duration;
 
-const RECEIVER: &str = r##"<scxml xmlns="http://www.w3.org/2005/07/scxml" version="1.0" datamodel="rfsm-expression" initial="s">
+/// The receiver. `children` = producer indices that are invoked children of the receiver (they send to `#_parent`
+/// when the receiver relays the harness' `kick`); the wrapper state `top` is never left, so the invokes live on.
+fn receiver_xml(children: &[usize], m: usize) -> String {
+    let arr: Vec<String> = (0..m).map(|i| i.to_string()).collect();
+    let mut invokes = String::new();
+    let mut kick = String::new();
+    for k in children {
+        invokes.push_str(&format!(
+            r##"  <invoke id="c{k}"><content><scxml xmlns="http://www.w3.org/2005/07/scxml" version="1.0" datamodel="rfsm-expression" initial="w">
+   <state id="w"><transition event="go" target="d"><foreach array="[{arr}]" item="i"><send eventexpr="'p{k}.' + toString(i)" target="#_parent"/></foreach></transition></state>
+   <state id="d"/></scxml></content></invoke>
+"##,
+            k = k,
+            arr = arr.join(",")
+        ));
+        kick.push_str(&format!("<send event=\"go\" target=\"#_c{}\"/>", k));
+    }
+    let kick_tr = format!("<transition event=\"kick\"><script>mark('kick')</script>{}</transition>", kick);
+    format!(
+        r##"<scxml xmlns="http://www.w3.org/2005/07/scxml" version="1.0" datamodel="rfsm-expression" initial="top">
  <datamodel><data id="cnt" expr="0"/></datamodel>
- <state id="s">
+ <state id="top" initial="s">
+{invokes} <state id="s">
   <onentry><script>mark('en', 's')</script></onentry>
   <onexit><script>mark('ex', 's')</script></onexit>
   <transition event="stop" target="end"/>
+  {kick}
   <transition event="follow"><script>mark('f', _event.data.u)</script></transition>
   <transition event="*" cond="cnt % 7 == 6" target="t">
    <script>mark('p', _event.name)</script><assign location="cnt" expr="cnt + 1"/>
@@ -32,14 +53,20 @@ const RECEIVER: &str = r##"<scxml xmlns="http://www.w3.org/2005/07/scxml" versio
   <invoke srcexpr="noSuchVariable.uri"/>
   <transition event="error.execution"><script>mark('ierr')</script></transition>
   <transition event="stop" target="end"/>
+  {kick}
   <transition event="follow"><script>mark('f', _event.data.u)</script></transition>
   <transition event="*" target="s">
    <script>mark('p', _event.name)</script><assign location="cnt" expr="cnt + 1"/>
    <send event="follow" target="#_internal"><param name="u" expr="_event.name"/></send>
   </transition>
  </state>
+ </state>
  <final id="end"/>
-</scxml>"##;
+</scxml>"##,
+        invokes = invokes,
+        kick = kick_tr
+    )
+}
 
 fn sibling_doc(k: usize, m: usize, target: u32, delayed: bool) -> String {
     let arr: Vec<String> = (0..m).map(|i| i.to_string()).collect();
@@ -68,6 +95,8 @@ enum Kind {
     HostExecutor,
     Sibling,
     SiblingTimer,
+    /// an invoked child of the receiver sending to `#_parent`
+    Child,
 }
 
 struct ScenarioResult {
@@ -78,6 +107,7 @@ struct ScenarioResult {
     interleaved: bool,
     events: usize,
     threads_seen: usize,
+    receiver_xml: String,
 }
 
 fn scenario(kinds: &[Kind], m: usize, jitter: u64) -> ScenarioResult {
@@ -89,6 +119,7 @@ fn scenario(kinds: &[Kind], m: usize, jitter: u64) -> ScenarioResult {
         interleaved: false,
         events: 0,
         threads_seen: 0,
+        receiver_xml: String::new(),
     };
     if jitter != 0 {
         lockmon::set_level(2);
@@ -98,7 +129,10 @@ fn scenario(kinds: &[Kind], m: usize, jitter: u64) -> ScenarioResult {
         lockmon::set_jitter(0);
     }
     let mut case = Case::new();
-    let fsm = match parse_xml(RECEIVER) {
+    let children: Vec<usize> = kinds.iter().enumerate().filter(|(_, k)| **k == Kind::Child).map(|(i, _)| i).collect();
+    let receiver = receiver_xml(&children, m);
+    res.receiver_xml = receiver.clone();
+    let fsm = match parse_xml(&receiver) {
         Ok(f) => f,
         Err(e) => {
             res.inconclusive = Some(e);
@@ -140,6 +174,7 @@ fn scenario(kinds: &[Kind], m: usize, jitter: u64) -> ScenarioResult {
                     }
                 }));
             }
+            Kind::Child => {}
             Kind::Sibling | Kind::SiblingTimer => {
                 let xml = sibling_doc(k, m, target, *kind == Kind::SiblingTimer);
                 match parse_xml(&xml) {
@@ -163,11 +198,16 @@ fn scenario(kinds: &[Kind], m: usize, jitter: u64) -> ScenarioResult {
     for s in &siblings {
         s.send("go");
     }
+    let mut extra = 0u64;
+    if !children.is_empty() {
+        recv.send("kick");
+        extra = 1;
+    }
     barrier.wait();
     for h in handles {
         let _ = h.join();
     }
-    let total = (n * m) as u64;
+    let total = (n * m) as u64 + extra;
     // all producers are done when the siblings are idle again; then everything must arrive
     for s in siblings.iter_mut() {
         if s.quiescent(1) != Wait::Idle {
@@ -229,6 +269,10 @@ fn scenario(kinds: &[Kind], m: usize, jitter: u64) -> ScenarioResult {
                 if ev.name == crate::refsim::CANCEL {
                     continue;
                 }
+                if ev.name.starts_with("done.invoke") {
+                    res.violations.push(("done-invoke-of-a-running-child".into(), format!("{} received although no child ever reaches a final state", ev.name)));
+                    continue;
+                }
                 if let Some(c) = &current {
                     // previous macrostep must be complete: its follow-up must have been processed
                     if f_marks.get(c).cloned().unwrap_or(0) == 0 {
@@ -236,6 +280,17 @@ fn scenario(kinds: &[Kind], m: usize, jitter: u64) -> ScenarioResult {
                             "overlap:next-event-before-follow-up".into(),
                             format!("event {} was dequeued before the internal follow-up of {} had been processed", ev.name, c),
                         ));
+                    }
+                }
+                if ev.name == "kick" {
+                    current = None;
+                    continue;
+                }
+                if let Some(k) = ev.name.strip_prefix('p').and_then(|x| x.split('.').next()).and_then(|x| x.parse::<usize>().ok()) {
+                    // events of an invoked child must carry its invoke id, all others none
+                    let want = if kinds.get(k) == Some(&Kind::Child) { Some(format!("c{}", k)) } else { None };
+                    if ev.invokeid != want {
+                        res.violations.push(("wrong-invokeid-on-event".into(), format!("event {} of a {:?} producer arrived with invokeid {:?}", ev.name, kinds.get(k), ev.invokeid)));
                     }
                 }
                 current = Some(ev.name.clone());
@@ -312,7 +367,7 @@ fn scenario(kinds: &[Kind], m: usize, jitter: u64) -> ScenarioResult {
                     }
                 }
                 0 => {
-                    if complete || matches!(kinds[k], Kind::HostSender | Kind::HostExecutor | Kind::Sibling) {
+                    if complete || matches!(kinds[k], Kind::HostSender | Kind::HostExecutor | Kind::Sibling | Kind::Child) {
                         res.violations.push(("event-never-processed".into(), format!("event {} ({:?}) was sent but never processed", name, kinds[k])));
                     } else {
                         res.inconclusive = Some(format!("timer event {} not seen within the window", name));
@@ -349,10 +404,11 @@ pub fn run(args: &Args, rep: &mut Report) {
         }
         let mut kinds = Vec::new();
         for k in 0..n {
-            kinds.push(match (k + r + if args.miri() { args.seed as usize + args.shard } else { 0 }) % 4 {
+            kinds.push(match (k + r + if args.miri() { args.seed as usize + args.shard } else { 0 }) % 5 {
                 0 => Kind::HostSender,
                 1 => Kind::Sibling,
                 2 => Kind::HostExecutor,
+                3 => Kind::Child,
                 _ => Kind::SiblingTimer,
             });
         }
@@ -380,7 +436,7 @@ pub fn run(args: &Args, rep: &mut Report) {
                 key,
                 what,
                 json!({"producers": kinds.iter().map(|k| format!("{:?}", k)).collect::<Vec<_>>(), "events_per_producer": m, "jitter_seed": jitter,
-                       "processing_order_head": res.order.iter().take(60).collect::<Vec<_>>(), "receiver_xml": RECEIVER}),
+                       "processing_order_head": res.order.iter().take(60).collect::<Vec<_>>(), "receiver_xml": res.receiver_xml}),
             );
         }
         if rep.samples.len() < rep.max_samples {
